@@ -14,3 +14,17 @@ pub use orchestrator::QueryExecutionPipeline;
 
 // Re-export streaming types for use by comparison handler
 pub use streaming::QueryResponseWriter;
+
+/// Verification hook (feature `verif`): the real streaming response writer and a
+/// constructor for the batch stream it consumes, for component-level exploration.
+#[cfg(feature = "verif")]
+pub mod verif_api {
+    pub use super::streaming::QueryResponseWriter;
+    use crate::command::handlers::query_batch_stream::QueryBatchStream;
+    use crate::engine::core::read::flow::{BatchReceiver, BatchSchema};
+    use std::sync::Arc;
+
+    pub fn batch_stream(schema: Arc<BatchSchema>, receiver: BatchReceiver) -> QueryBatchStream {
+        QueryBatchStream::new(schema, receiver, Vec::new())
+    }
+}
